@@ -13,7 +13,9 @@
   with `$v<x>` for variable `x`, `g` for the parameter, `f<i>(a)` for a call, `.name` for
   `index "name"`, `.[]`, `empty`, `error`, `[q]`, `try b`, `try b catch h`,
   `if c then a else b end`, `l // r`, `src as $v<x> | body`, `reduce src as $v<x> (init; upd)`,
-  `foreach src as $v<x> (init; upd; ext)`.
+  `foreach src as $v<x> (init; upd; ext)`, `{(k): v, a: v, …}` (object construction is read by the
+  relation `Tr` in the main query, with `delay`s that give the mini reference evaluator the fuel
+  `Spec.evalObject` spends per entry — rule `Tr.obj`; `toQuery`/`tieOK` do not produce that form).
 
   Two things the mini syntax leaves open are fixed here:
     * a constant `const c` is an arbitrary VALUE in the mini fragment; jq has literals only for
@@ -75,6 +77,11 @@ def keyBytes : V → Bytes
   | .str b => b
   | _ => []
 
+/-- the entries of an object-construction term -/
+def kvsOf : Query → List ObjKV
+  | .term _ (.mk (.object kvs) _) => kvs
+  | _ => []
+
 /-- the jq abstract syntax of a mini query -/
 def toQuery : Q → Query
   | .id => T .identity
@@ -97,6 +104,12 @@ def toQuery : Q → Query
   | .reduce x src init upd => T (.reduce (toQuery src) (.var (vname x)) (toQuery init) (toQuery upd))
   | .foreach x src init upd ext =>
     T (.foreach (toQuery src) (.var (vname x)) (toQuery init) (toQuery upd) (some (toQuery ext)))
+  -- `{(k₁): v₁, …}`: the spine is translated to the object term with the entries so far
+  | .obj sp => toQuery sp
+  | .objStart => T (.object [])
+  | .objSnoc init k v => T (.object (kvsOf (toQuery init) ++ [.mk (.query (toQuery k)) (some (toQuery v))]))
+  | .objSnocC init key v => T (.object (kvsOf (toQuery init) ++ [.mk (.name (keyBytes key)) (some (toQuery v))]))
+  | .delay q => toQuery q
 
 /-! ### reading jq syntax as a mini query
 
@@ -105,6 +118,11 @@ def toQuery : Q → Query
   `if`s), the two-argument `foreach`, and the postfix forms `t[]`, `t.name`, `t?`, `t[]?`, `t.name?`
   (compiled as `t | .[]`, …) — and `Spec.eval` gives each of them its own equation.  `Tr q A` says
   that the jq query `A` (without header definitions) is compiled as the mini query `q`. -/
+
+/-- `n` units of extra reference fuel -/
+def delayN : Nat → Q → Q
+  | 0, q => q
+  | n+1, q => .delay (delayN n q)
 
 def qTrue : Q := .const (.bool true)
 def qFalse : Q := .const (.bool false)
@@ -166,6 +184,35 @@ inductive Tr : Q → Query → Prop where
   /-- … and `t.name?` as `t | try .name` -/
   | sfxIndexOpt (nm : Bytes) {a core sfx} : Tr a (.term [] (.mk core sfx)) →
       Tr (.pipe a (.try_ (.index (.str nm)))) (.term [] (.mk core (sfx ++ [.index (.name nm), .optional])))
+  /-- `delay q` has the instructions of `q` (only the fuel of the mini reference evaluator differs) -/
+  | delay {q A} : Tr q A → Tr (.delay q) A
+  /-- the spine of an object construction, read as the object term with the entries so far.  A
+      spine is not a query by itself — the mini reference semantics gives it no meaning (`diverge`),
+      so the theorems say nothing about it; these three rules only serve the rule `obj`. -/
+  | objStart : Tr .objStart (T (.object []))
+  /-- one more entry `(K): V` -/
+  | objSnoc {init k v kvs K V} : Tr init (T (.object kvs)) → Tr k K → Tr v V →
+      Tr (.objSnoc init k v) (T (.object (kvs ++ [.mk (.query K) (some V)])))
+  /-- one more entry `name: V` -/
+  | objSnocC (nm : Bytes) {init v kvs V} : Tr init (T (.object kvs)) → Tr v V →
+      Tr (.objSnocC init (.str nm) v) (T (.object (kvs ++ [.mk (.name nm) (some V)])))
+  /-- one more entry `"name": V` (same instructions as `name: V`) -/
+  | objSnocS (nm : Bytes) {init v kvs V} : Tr init (T (.object kvs)) → Tr v V →
+      Tr (.objSnocC init (.str nm) v) (T (.object (kvs ++ [.mk (.str (.lit nm)) (some V)])))
+  /-- one more entry `{name}`, compiled as `name: .name` -/
+  | objShort (nm : Bytes) {init kvs} : Tr init (T (.object kvs)) →
+      Tr (.objSnocC init (.str nm) (.index (.str nm))) (T (.object (kvs ++ [.mk (.name nm) none])))
+  /-- one more entry `{"name"}`, compiled as `name: .name` -/
+  | objShortS (nm : Bytes) {init kvs} : Tr init (T (.object kvs)) →
+      Tr (.objSnocC init (.str nm) (.index (.str nm))) (T (.object (kvs ++ [.mk (.str (.lit nm)) none])))
+  /-- one more entry `{$v<x>}`, compiled as `v<x>: $v<x>` -/
+  | objVar (x : Nat) {init kvs} : Tr init (T (.object kvs)) →
+      Tr (.objSnocC init (.str (B (Spec.dropFirst (vname x)))) (.var x)) (T (.object (kvs ++ [.mk (.var (vname x)) none])))
+  /-- `{e₁, …, eₙ}` (n ≥ 1, entries `(K): V`, `name: V`, `"name": V`, `{name}`, `{"name"}`, `{$x}`) is compiled as `obj sp`; the mini reference
+      evaluator is given n more units of fuel (`delay`, no instructions), because `Spec.evalObject`
+      spends one unit per entry -/
+  | obj {q sp kvs} : Tr sp (T (.object kvs)) → sp.IsSpine → sp ≠ .objStart →
+      q = delayN sp.entries.length (.obj sp) → Tr q (T (.object kvs))
 
 /-- every constant has a literal and every `index` key is a string -/
 def qLitOK : Q → Bool
@@ -182,9 +229,17 @@ def qLitOK : Q → Bool
   | .bind _ s b => qLitOK s && qLitOK b
   | .reduce _ src init upd => qLitOK src && qLitOK init && qLitOK upd
   | .foreach _ src init upd ext => qLitOK src && qLitOK init && qLitOK upd && qLitOK ext
+  -- a bare object construction is not read by `Tr` (it reads `delayN n (obj …)`: rule `Tr.obj`)
+  | .obj _ => false
+  | .objStart => false
+  | .objSnoc _ _ _ => false
+  | .objSnocC _ _ _ => false
+  | .delay q => qLitOK q
   | _ => true
 
-/-- every call goes to one of the functions `f0 … f(k-1)` -/
+mutual
+/-- every call goes to one of the functions `f0 … f(k-1)` (and the query is not a bare spine of an
+    object construction, which has no meaning by itself) -/
 def callsBelow (k : Nat) : Q → Bool
   | .call1 f a => decide (f < k) && callsBelow k a
   | .pipe a b => callsBelow k a && callsBelow k b
@@ -197,7 +252,19 @@ def callsBelow (k : Nat) : Q → Bool
   | .bind _ s b => callsBelow k s && callsBelow k b
   | .reduce _ src init upd => callsBelow k src && callsBelow k init && callsBelow k upd
   | .foreach _ src init upd ext => callsBelow k src && callsBelow k init && callsBelow k upd && callsBelow k ext
+  | .obj sp => spineCallsBelow k sp
+  | .objStart => false
+  | .objSnoc _ _ _ => false
+  | .objSnocC _ _ _ => false
+  | .delay q => callsBelow k q
   | _ => true
+/-- … for the keys and values of a spine -/
+def spineCallsBelow (k : Nat) : Q → Bool
+  | .objStart => true
+  | .objSnoc init kq v => spineCallsBelow k init && callsBelow k kq && callsBelow k v
+  | .objSnocC init _ v => spineCallsBelow k init && callsBelow k v
+  | _ => false
+end
 
 /-! ### programs -/
 
@@ -248,6 +315,7 @@ def errMsgV (e : Gojq.Err) : V :=
   msg v := errMsgV (.builtin "iterator" [v])
   index v k := match funcIndex2 v k with | .ok w => some w | .error _ => none
   indexMsg v k := match funcIndex2 v k with | .ok _ => .null | .error e => errMsgV e
+  keyMsg k := errMsgV (.builtin "objectKeyNotString" [k])
 
 /-- the error of `Spec.eval` a mini error stands for -/
 def trErr : MiniVM.Err → Gojq.Err
@@ -258,6 +326,7 @@ def trErr : MiniVM.Err → Gojq.Err
     | _ => .builtin "" []
   | .noParam => .builtin "" []
   | .noVar _ => .builtin "" []
+  | .keyNotStr k => .builtin "objectKeyNotString" [k]
 
 /-- how an evaluation ended: running out of fuel on one side is running out of fuel on the other -/
 def trStop : MiniVM.Stop → Spec.Stop
